@@ -1,5 +1,6 @@
 import PysphVerif.Driver.Common
 import PysphVerif.Model.Stepper
+import PysphVerif.Model.StepperHist
 import PysphVerif.Gen.Timesteps
 /-!
 Line protocol for C04 (times are doubles, bit patterns).
@@ -16,11 +17,18 @@ Line protocol for C04 (times are doubles, bit patterns).
   not exist / of an evaluator that does not exist ends the run with
   `x:AttributeError` / `x:IndexError` after the statements before it):
      `h:<name>:<m>:<t>:<dt>` `s:<name>:<m>:<i>:<t>:<dt>` `n` `e:<i>:<t>:<dt>` `d` `c:<t>:<dt>:<k>`
+  `hist mode=<impl|lit> prog=<P> nev=<n> arrs=… py=<nnps id>:<callback id|->:<0|1> ops=<op>,<op>,…`
+     a history of public calls on one integrator object (Model/StepperHist.lean):
+     op = `S<t>:<dt>` (step) `N<k>` (set_nnps(object k)) `C<c>` / `C-`
+          (set_post_stage_callback(object c / None)) `F0` / `F1` (set_fixed_h)
+          `G<name>~<n>` (n real particles added to array name between steps)
+     answers as `run`, with the object identities in the events:
+     `n:<k>` `d:<k>` `c:<c>:<t>:<dt>:<stage>`
   `table`   answers `<class>=<owner>=<wire program>` for every Gen entry
   `steppers` answers `<class>=<methods>=<hooks>` for every Gen stepper entry
 -/
 namespace PysphVerif.Driver.C04
-open PysphVerif.Wire PysphVerif.Stepper
+open PysphVerif.Wire PysphVerif.Stepper PysphVerif.StepperHist
 
 def parseMeth? (s : String) : Option Meth :=
   if s = "i" then some .initialize else (parseNat? s).map Meth.stage
@@ -208,9 +216,87 @@ def handleRun (kv : List (String × String)) : Option String := do
         | _ => ["x:AttributeError"]
       pure (showEvs out.events tail)
 
+def showHEvent : HEvent Float → String
+  | .hook d m t dt => s!"h:{d}:{showMeth m}:{fb t}:{fb dt}"
+  | .step d m i t dt => s!"s:{d}:{showMeth m}:{i}:{fb t}:{fb dt}"
+  | .nnps k => s!"n:{k}"
+  | .eval i t dt => s!"e:{i}:{fb t}:{fb dt}"
+  | .domain k => s!"d:{k}"
+  | .callback c t dt k => s!"c:{c}:{fb t}:{fb dt}:{k}"
+
+def parseOp? (s : String) : Option (Op Float) :=
+  match s.toList with
+  | 'S' :: r => (parseStep? (String.ofList r)).map (fun x => Op.step x.1 x.2)
+  | 'N' :: r => (parseNat? (String.ofList r)).map Op.setNnps
+  | ['C', '-'] => some (.setCallback none)
+  | 'C' :: r => (parseNat? (String.ofList r)).map (fun c => Op.setCallback (some c))
+  | ['F', '0'] => some (.setFixedH false)
+  | ['F', '1'] => some (.setFixedH true)
+  | 'G' :: r =>
+    match (String.ofList r).splitOn "~" with
+    | [d, n] => if d.isEmpty then none else (parseNat? n).map (Op.addParticles d)
+    | _ => none
+  | _ => none
+
+def parsePy? (s : String) : Option PyRegs :=
+  match s.splitOn ":" with
+  | [k, c, f] => do
+    let k ← parseNat? k
+    let c ← if c = "-" then some none else (parseNat? c).map some
+    let f ← if f = "1" then some true else if f = "0" then some false else none
+    pure { nnps := k, callback := c, fixedH := f }
+  | _ => none
+
+def Op.isStep : Op Float → Bool
+  | .step _ _ => true
+  | _ => false
+
+def handleHist (kv : List (String × String)) : Option String := do
+  let mode ← lookup kv "mode"
+  let prog ← (lookup kv "prog") >>= parseProgram?
+  let nev ← (lookup kv "nev") >>= parseNat?
+  let arrsS ← lookup kv "arrs"
+  let arrs ← if arrsS = "_" then some [] else (arrsS.splitOn "|").mapM parseArr?
+  let p0 ← (lookup kv "py") >>= parsePy?
+  let opsS ← lookup kv "ops"
+  let ops ← if opsS = "_" then some [] else (opsS.splitOn ",").mapM parseOp?
+  -- `hasCallback` is decided by the attribute, see `cfgAt`
+  let cfg : Cfg := { arrays := arrs.map (·.cfg), hasCallback := false, nEvals := nev }
+  let H := htraceWorld (τ := Float) (growFn arrs)
+  let s0 : HState Float := { events := [], sizes := arrs.map (fun a => (a.cfg.name, a.nreal, a.nghost)) }
+  let A := Arith.float
+  let r0 : Regs Float := { origT := 0.0, t := 0.0, dt := 0.0 }
+  let showEvs (l : List (HEvent Float)) (tail : List String) : String :=
+    let all := l.map showHEvent ++ tail
+    if all.isEmpty then "_" else " ".intercalate all
+  let run (prog : Program) (ops : List (Op Float)) : Option (HState Float) :=
+    if mode = "impl" then some (runHist A H cfg prog ops { py := p0, regs := r0, world := s0 }).world
+    else if mode = "lit" then some (literalHist A H cfg prog p0 ops s0)
+    else none
+  if wellFormed cfg prog then
+    let out ← run prog ops
+    pure (showEvs out.events [])
+  else
+    -- the first step aborts at the first statement that cannot run (see
+    -- `handleRun`); the calls before it happen, nothing after it does
+    let before := ops.takeWhile (fun o => !Op.isStep o)
+    match (ops.dropWhile (fun o => !Op.isStep o)).head? with
+    | none =>
+      let out ← run prog before
+      pure (showEvs out.events [])
+    | some stepOp =>
+      let pre := prog.takeWhile (cmdWellFormed cfg)
+      let out ← run pre (before ++ [stepOp])
+      let tail := match (prog.dropWhile (cmdWellFormed cfg)).head? with
+        | some (.computeAccelerations _ true) => [s!"n:{(pyAfter p0 before).nnps}", "x:IndexError"]
+        | some (.computeAccelerations _ false) => ["x:IndexError"]
+        | _ => ["x:AttributeError"]
+      pure (showEvs out.events tail)
+
 def handle (line : String) : String :=
   match tokens line with
   | "run" :: rest => (handleRun (kvs rest)).getD "bad-op"
+  | "hist" :: rest => (handleHist (kvs rest)).getD "bad-op"
   | ["table"] =>
     " ".intercalate (Gen.Timesteps.programs.map (fun x => s!"{x.1}={x.2.1}={showProgram x.2.2}"))
   | ["steppers"] =>
